@@ -63,7 +63,8 @@ def build(cfg):
     m = scenarios.build_manager(method, pipe=cfg["pipe"], flow=cfg["flow"], flow_rate=cfg.get("flow_rate", 0.5), geo=cfg["geo"],
                                 fluid=tuple(cfg["fluid"]), cap=cfg["cap"], cont=cfg["cont"], months=cfg.get("months", 24),
                                 loads=cfg.get("loads") or [float((h * 37) % 101) - 50.0 for h in range(8760)],
-                                soil=tuple(cfg.get("soil", (2.0, 2343493.0, 18.3))), grout=tuple(cfg.get("grout", (1.0, 3901000.0))))
+                                soil=tuple(cfg.get("soil", (2.0, 2343493.0, 18.3))), grout=tuple(cfg.get("grout", (1.0, 3901000.0))),
+                                distinct_pipe=bool(cfg.get("distinct_pipe")), **({"borehole": tuple(cfg["borehole"])} if cfg.get("borehole") else {}))
     return m
 
 
@@ -191,6 +192,9 @@ def expand(chunk):
                         for flow in ("borehole", "system"):
                             yield {"method": method, "geo": geo, "pipe": pipe, "fluid": list(fluid), "cap": cap, "cont": cont, "flow": flow,
                                    "flow_rate": 0.5 if flow == "borehole" else 0.1 + 0.2 + 3}
+                    # the same with a value set in which no two numbers coincide (pipe, borehole, soil, grout)
+                    yield {"method": method, "geo": geo, "pipe": pipe, "fluid": list(fluid), "cap": 12, "cont": True, "flow": "system", "flow_rate": 0.1 + 0.2 + 3,
+                           "distinct_pipe": True, "borehole": [97.3, 1.7, 0.13 + THIRD / 10], "soil": [2.2 + THIRD, 2343493.0 * THIRD * 3.3, 17.0 + THIRD], "grout": [1.0 + THIRD, 3901000.0 * 1.1]}
 
 
 def run_same_design(case, res):
@@ -267,7 +271,7 @@ def main(run: core.Run, only=None):
     rot = [{"kind": "rotations", "lo": lo, "hi": min(361, lo + step)} for lo in range(0, 361, step)]
     run.drive(rot[::3] if quick else rot, family="rowwise-rotations")
     sd = [{"method": "nearsquare", "geo": GEOS["nearsquare"][0], "pipe": "single", "fluid": ["Water", 0.0], "cap": None, "cont": False, "flow": "borehole", "flow_rate": 0.3},
-          {"method": "rowwise_none", "geo": {"perimeter_spacing_ratio": None, "min_rotation": -90.0 + 0.5 * 77, "max_rotation": 0.0}, "pipe": "coaxial", "fluid": ["PROPYLENEGLYCOL", 30.0], "cap": 12, "cont": True, "flow": "system", "flow_rate": 0.1 + 0.2 + 3}]
+          {"method": "rowwise_none", "geo": {"perimeter_spacing_ratio": None, "min_rotation": -90.0 + 0.5 * 77, "max_rotation": 0.0}, "pipe": "coaxial", "fluid": ["PROPYLENEGLYCOL", 30.0], "cap": 12, "cont": True, "flow": "system", "flow_rate": 0.1 + 0.2 + 3, "distinct_pipe": True}]
     if not quick:
         sd += [{"method": "rectangle", "geo": GEOS["rectangle"][0], "pipe": "double_series", "fluid": ["water", 0.0], "cap": 12, "cont": True, "flow": "borehole", "flow_rate": 0.3},
                {"method": "birectangle", "geo": GEOS["birectangle"][0], "pipe": "single", "fluid": ["Water", 0.0], "cap": None, "cont": False, "flow": "system", "flow_rate": 4.0},
